@@ -438,6 +438,8 @@ def explore(ex, key, c, first_choice=None):
     for ci, case in enumerate(c.get('cases', [{}])):
         work = [[]]
         n = 0
+        retries = {}
+        ex.loop_frames = {}        # inferred loop frames name heap ids: valid for the paths of ONE contract case only
         while work:
             prefix = work.pop()
             n += 1
@@ -448,6 +450,14 @@ def explore(ex, key, c, first_choice=None):
             outcome, err = None, None
             try:
                 outcome = ex.run_path(key, c, case, oracle)
+            except RetryPath:
+                retries[tuple(prefix)] = retries.get(tuple(prefix), 0) + 1
+                if retries[tuple(prefix)] <= 20:
+                    work.append(prefix)
+                    n -= 1
+                    continue
+                err = 'unsupported: loop frame inference does not converge'
+                unsupported.append(f'{key} case {ci}: loop frame inference does not converge')
             except PathEnd as pe:
                 outcome = ('cut', str(pe))
             except Unsupported as u:
